@@ -1390,3 +1390,31 @@ def stream_rewound(ctx):
 
 from . import c05 as _c05
 PROP.obligation('C06.script-built')(_c05.script_built)
+
+
+@PROP.obligation('C06.output-script-kept', canaries=[
+    mut.insert_before('transactions', 'Output.__init__', 'if self.script.keys:', "if self.script_type in ['p2pkh', 'p2sh', 'p2wpkh', 'p2wsh']:\n    self.lock_script = self.script.serialize()", 'the locking script of a parsed output is rebuilt with minimal pushes'),
+])
+def output_script_kept(ctx):
+    """The bytes of a parsed output script are what raw(), the txid and both signature digests commit to: Output.__init__ keeps the
+    lock_script it was given byte for byte. Besides the initial `self.lock_script = ... lock_script ...`, the only assignment of
+    self.lock_script is the one that BUILDS a script for an output described by an address / hash / key, guarded by `not self.script`
+    (no script was given or parsed). A re-serialisation of the parsed script (76a9 4c14 <hash> 88ac -> 76a9 14 <hash> 88ac) changes the
+    bytes and the id of a well-formed transaction and hides a script that was altered after signing."""
+    from ..dfa import guards_of
+    q = 'transactions:Output.__init__'
+    fn = ctx.repo.func(q)
+    g = build_cfg(fn)
+    n = 0
+    for nd in g.nodes:
+        a = nd.ast
+        if a is None or not (isinstance(a, ast.Assign) and any(norm(t) == 'self.lock_script' for t in a.targets)):
+            continue
+        n += 1
+        from_arg = any(isinstance(x, ast.Name) and x.id == 'lock_script' for x in ast.walk(a.value))
+        gs = [(norm(g[t].ast), pol) for t, pol in guards_of(g, nd.id)]
+        built = any(('self.script' == s_ and pol == 'F') or ('self.lock_script' == s_ and pol == 'F') or ('lock_script' == s_ and pol == 'F') for s_, pol in gs)
+        ctx.saw('`%s`: takes the argument over: %s; guarded by "no script yet": %s' % (norm(a)[:60], from_arg, built))
+        ctx.require(from_arg or built, q, '`%s` replaces the locking script although one was given / parsed (guards: %s)' % (norm(a)[:60], [s_ for s_, _ in gs][:4]), a,
+                    'a transaction with the output script 76a9 4c14 <hash> 88ac parses, re-serialises to other bytes and another txid, and its valid signatures no longer verify')
+    ctx.floor(n, 2, 'assignments of Output.lock_script')
